@@ -27,8 +27,10 @@ from . import c01_lib
 from . import c01_obj
 from . import c01_coerce
 from . import c01_literals
+from . import c01_compile
 
-LEAN_TARGETS = ["TsrunVerif.Props.C01", "TsrunVerif.Props.C01Parse", "TsrunVerif.Props.C01Lib", "TsrunVerif.Props.C01Obj", "TsrunVerif.Props.C01Coerce"]
+LEAN_TARGETS = ["TsrunVerif.Props.C01", "TsrunVerif.Props.C01Parse", "TsrunVerif.Props.C01Lib", "TsrunVerif.Props.C01Obj", "TsrunVerif.Props.C01Coerce",
+                "TsrunVerif.Props.C01Compile"]
 THEOREMS = ["TsrunVerif.Ops." + t for t in [
     "numEq_symm", "strictEq_symm", "looseEq_symm", "looseEq_of_strictEq", "nan_never_equal", "null_looseEq_iff", "typeOf_closed",
     "plus_string_left", "plus_string_right", "add_comm", "neg_neg", "lt_irrefl", "nan_relational_false", "not_not",
@@ -48,8 +50,15 @@ THEOREMS = ["TsrunVerif.Ops." + t for t in [
         "resolveCall_spec", "resolveNew_spec", "new_call_agree", "bind_compose", "bound_this_fixed"]] + \
     ["TsrunVerif.Coerce." + t for t in [
         "toPrim_exclusive", "string_hint_toString_first", "number_hint_valueOf_first", "first_primitive_suffices", "calls_at_most_once", "no_primitive_typeError",
-        "both_left_first", "strict_never_converts", "nullish_eq_no_convert", "prim_passthrough"]]
+        "both_left_first", "strict_never_converts", "nullish_eq_no_convert", "prim_passthrough"]] + \
+    ["TsrunVerif.Compile." + t for t in [
+        "codeE_ok", "codeS_ok", "codeL_ok", "compileE_eq", "compileS_eq", "compileProgram_eq", "compileE_correct", "compileE_restores",
+        "program_completes", "program_throws", "run_mono", "run_unique"]]
 ASSUMPTIONS = [
+    "M-Compile mirrors compile_expression / compile_statement_impl / BytecodeBuilder (register allocator, jump placeholders, patch_jump) for literals, variables, unary and binary operators, && || ??, ?:, the comma operator, "
+    "every form of assignment to a variable, ++/--, expression statements, if, while, do-while and blocks without declarations; its VM executes the 19 instructions these compile to, with PushScope/PopScope as no-ops (no declaration "
+    "inside the modelled blocks). Values and operator meanings are parameters of the theorems (any value domain); the correspondence run instantiates them with M-Ops. The listing the model emits is compared instruction by instruction "
+    "with Compiler::compile_statement's; member access, calls, declarations, break/continue, try, the constant pool limits and the loop-variable register redirect are outside the model",
     "M-Coerce abstracts an object operand to what its valueOf / toString / [Symbol.toPrimitive] do when called (return a primitive, return an object, throw, not callable); Date (hint string by default), "
     "wrapper objects, Symbol values and BigInt are outside it; on primitive operands it is M-Ops (prim_passthrough)",
     "M-Obj: an ordinary object is its list of own data properties (key, value, enumerable) in own-key order with distinct non-index string keys, a receiver is its prototype chain; accessors, index keys, symbols, "
@@ -635,6 +644,58 @@ def part_coerce_model(ctx, ref):
     ctx.notes.append("coerce model: %d operator applications over primitives and objects with every valueOf / toString / Symbol.toPrimitive behaviour" % len(cs))
 
 
+def part_compile_model(ctx, ref):
+    """CORR: M-Compile emits the instruction listing tsrun's compiler emits; CORR / PROP: the model's semantics (reference == its VM on its code) ==
+    the reference engine == tsrun on the variables a statement leaves behind"""
+    ls = c01_compile.listing_cases(ctx.rng, ctx.tier)
+    model = common.driver(["compile"], [m for m, _ in ls])
+    real = common.harness(["compile"], [h for _, h in ls])
+    deep = refused = 0
+    for (m, h), mo, ro in zip(ls, model, real):
+        ctx.cov["evaluations"] += 1
+        ctx.cov["traces_validated_against_impl"] += 1
+        if "nested too deeply" in ro:
+            deep += 1                   # the parser's own nesting limit (C05) comes first
+            continue
+        if mo == "ERR":
+            refused += 1
+        if mo != ro:
+            ctx.corr_fail("M-Compile and Compiler::compile_statement emit different code for the same statement", {"model_case": m, "source": h[2:][:3000]}, mo[:4000], ro[:4000])
+    ctx.cov["distinct_nontrivial"] += len(set(model))
+    ms = c01_compile.meaning_cases(ctx.rng, ctx.tier)
+    model = common.driver(["compile"], [m for m, _ in ms])
+    exprs = [js for _, js in ms]
+    got = eval_exprs(run_tsrun, exprs, size=40)
+    refv = eval_exprs(lambda ps: run_node(ref.node, ps), exprs, size=40) if ref.node else [None] * len(exprs)
+    kinds = {}
+
+    def plain(v):
+        if v is not None and v.startswith("s:"):
+            try:
+                return "s:" + json.loads(v[2:])
+            except ValueError:
+                return v
+        return v
+    for (m, js), mo, g, r in zip(ms, model, got, refv):
+        g, r = plain(g), plain(r)
+        ctx.cov["evaluations"] += 1
+        ctx.cov["traces_validated_against_impl"] += 1
+        if mo.startswith("MISMATCH") or "bad-case" in mo or mo in ("ERR", "fault", "timeout"):
+            ctx.corr_fail("M-Compile: the model's VM and its reference semantics disagree, or the driver rejected a generated case", m, mo, g)
+            continue
+        e = "s:" + c01_compile.normal(mo)
+        if c01_compile.too_big(e) or (g and c01_compile.too_big(g)):
+            continue
+        kinds[e.split(" ")[0] + (" " + e.split(" ")[1] if e.startswith("s:throw") else "")] = kinds.get(e.split(" ")[0] + (" " + e.split(" ")[1] if e.startswith("s:throw") else ""), 0) + 1
+        if r is not None and r != e:
+            ctx.corr_fail("M-Compile's reference semantics differs from the reference engine (the model is wrong)", {"case": m, "expr": js[:1500]}, e, r)
+        elif g != e:
+            ctx.prop_fail("statements: tsrun leaves different variables behind (or throws differently) than M-Compile and the reference engine",
+                          {"expr": js[:3000], "tsrun": g, "ref": e, "model_case": m})
+    ctx.notes.append("compile model: %d statements with identical listings (%d refused by both for want of registers, %d beyond the parser's nesting limit), %d statements run: %s"
+                     % (len(ls) - deep, refused, deep, len(ms), json.dumps(kinds, sort_keys=True)))
+
+
 def part_obj_model(ctx, ref):
     """CORR / PROP: M-Obj (prototype-chain lookup, for-in, bound functions) == tsrun == reference engine"""
     cs = c01_obj.cases(ctx.rng, ctx.tier)
@@ -716,6 +777,7 @@ def run(ctx):
     part_lib_model(ctx, ref)
     part_obj_model(ctx, ref)
     part_coerce_model(ctx, ref)
+    part_compile_model(ctx, ref)
     part_operators(ctx, ref)
     part_library(ctx, ref)
     part_literals(ctx, ref)
